@@ -607,6 +607,12 @@ def run(ctx):
     from .confimm import rule_config_as_loaded
     from . import gram as _gram
     _gram.recognition_premises(ctx, ctx.grammar, "C01-G")
+    # "every ID already carried": which text counts as carrying an ID is C12's accept / reject boundary (a stricter
+    # extraction regex makes an existing ID invisible to the scan and it is issued again)
+    from . import c12 as _c12
+    from .c03 import _Only as _Only03
+    from .c06 import _run_as as _run_as06
+    _run_as06(_c12, _Only03(ctx, "C01-R9", ("regex-language", "regex-anchor", "regex-groups", "regex-group-span", "regex-use", "haystack", "parse-u32", "group-1", "some-payload", "anchor|")), ctx)
     _finder.rule_macro_filter(ctx, facts, "C01-R7")
     _finder.rule_filter_before_entry(ctx, facts, "C01-R7")
     rule_config_as_loaded(ctx, facts, "C01-R7")
